@@ -66,6 +66,8 @@ pub struct ExecResult {
     pub shared_acquisitions: usize,
     pub acquisitions: usize,
     pub context_switches: usize,
+    /// lazy statics (MODULES, FUNCTIONS, CALL_ID, ...) that more than one task tried to initialise
+    pub contended_lazies: usize,
 }
 
 /// Loader with the lookup rules of the spec test-runner (cwd + mock table).
@@ -160,6 +162,7 @@ pub fn execute(plan: &ExecPlan) -> ExecResult {
         *sw2.lock().unwrap_or_else(|e| e.into_inner()) = shuttle::current::context_switches();
     };
     rsass_verif_sync::trace::take();
+    rsass_verif_sync::trace::take_contended_lazies();
     rsass_verif_sync::trace::enable(true);
     let outcome = catch_unwind(AssertUnwindSafe(|| match plan.sched {
         Sched::Random => {
@@ -171,6 +174,7 @@ pub fn execute(plan: &ExecPlan) -> ExecResult {
     }));
     rsass_verif_sync::trace::enable(false);
     let trace = rsass_verif_sync::trace::take();
+    let contended_lazies = rsass_verif_sync::trace::take_contended_lazies();
     let failure = outcome.err().map(|_| vcommon::panichook::last_panic());
 
     // interleaving signature: order of task ids over acquisitions of locks
@@ -207,6 +211,7 @@ pub fn execute(plan: &ExecPlan) -> ExecResult {
         shared_acquisitions: shared_acq,
         acquisitions: trace.len(),
         context_switches,
+        contended_lazies,
     }
 }
 
